@@ -340,9 +340,9 @@ func (p *Pool) Put(x interface{}) {
 		// an object that is put while it is already in the pool will be handed
 		// to two users at once: always a bug, and invisible to a cooperative
 		// scheduler otherwise (no synchronisation between the two users)
-		if v := reflect.ValueOf(x); v.Kind() == reflect.Ptr {
+		if v := reflect.ValueOf(x); v.Kind() == reflect.Ptr || (v.Kind() == reflect.Slice && v.Cap() > 0) {
 			for _, it := range p.items {
-				if w := reflect.ValueOf(it); w.Kind() == reflect.Ptr && w.Pointer() == v.Pointer() {
+				if w := reflect.ValueOf(it); w.Kind() == v.Kind() && w.Pointer() == v.Pointer() {
 					panic("verif: object put into a sync.Pool that already holds it (it will be handed to two users)")
 				}
 			}
